@@ -488,17 +488,22 @@ fn c04_case(s: &mut Sess, req: &Req, reply: &[u8], st: &mut Stats) -> Vec<(Strin
     let expect = decode_reply(req, reply);
     st.class(match &expect {
         ReplyDecode::Ok(_) => "accept",
+        ReplyDecode::OkLenient(_) => "accept-or-reject (byte count field inconsistent)",
         ReplyDecode::Exception(_) => "exception",
         ReplyDecode::Other => "reject",
     });
     let good = match (&expect, &got) {
         (ReplyDecode::Ok(v), Some(Outcome::Ok(g))) => v == g,
+        (ReplyDecode::OkLenient(v), Some(Outcome::Ok(g))) => v == g,
+        (ReplyDecode::OkLenient(_), Some(Outcome::Err(e))) => !matches!(e, ErrClass::Exception(_)),
         (ReplyDecode::Exception(c), Some(Outcome::Err(ErrClass::Exception(g)))) => c == g,
         (ReplyDecode::Other, Some(Outcome::Err(e))) => !matches!(e, ErrClass::Exception(_)),
         _ => false,
     };
     if !good {
         let kind = match (&expect, &got) {
+            (ReplyDecode::OkLenient(_), Some(Outcome::Ok(_))) => "wrong-values",
+            (ReplyDecode::OkLenient(_), _) => "bad-reply-reported-as-exception",
             (_, None) => "request-left-pending",
             (ReplyDecode::Other, Some(Outcome::Ok(_))) => "bad-reply-accepted",
             (ReplyDecode::Other, _) => "bad-reply-reported-as-exception",
@@ -674,6 +679,14 @@ fn c04_replies(req: &Req, thorough: bool) -> Vec<Vec<u8>> {
                 let mut p = good.clone();
                 p[1] = bc;
                 v.push(p);
+            }
+            // self-consistent replies for another quantity: byte count = number of data bytes
+            for bc in 0..=251usize {
+                for k in 0..3u8 {
+                    let mut p = vec![fc, bc as u8];
+                    p.extend(filler(k, bc));
+                    v.push(p);
+                }
             }
         }
     }
